@@ -88,3 +88,4 @@ Proof.
   all: dif; inversion S; subst; clear S; rewrite ?invb_emit; cbn in *; unfold invb, opn in *; cbn in *.
   all: db ec; db st; db cs; db ca; db bc; db sc; cbn in *; try discriminate; try reflexivity.
 Qed.
+
